@@ -1,6 +1,8 @@
-// Independent XML-DSig verifier for C19: validates an enveloping Signature document with the JDK's javax.xml.crypto.dsig
-// implementation (no relic code). stdin: "<hex of document> <hex of DER certificate>" per line.
-// stdout per line: "OK" | "FAIL sv=<bool> ref0=<bool> ..." | "ERR <message>"
+// Independent validator for ENVELOPED XML signatures (C19 histories): the JDK's javax.xml.crypto.dsig implementation applies
+// the transforms the Reference declares (enveloped-signature, exclusive c14n) to the document as it stands (no relic code).
+// stdin : "<hex of document> <hex of DER certificate> <path>" per line; path = "-" or "i/j" child-ELEMENT indices of the element
+//         whose LAST child element with local name Signature is the signature to validate.
+// stdout: "OK" | "FAIL sv=<bool> ref0=<bool>" | "ERR <message>"
 import java.io.*;
 import java.security.cert.*;
 import java.util.*;
@@ -10,17 +12,11 @@ import javax.xml.crypto.dsig.dom.DOMValidateContext;
 import javax.xml.parsers.*;
 import org.w3c.dom.*;
 
-public class XmlSigVerify {
+public class XmlEnvVerify {
     static byte[] unhex(String s) {
         byte[] b = new byte[s.length() / 2];
         for (int i = 0; i < b.length; i++) b[i] = (byte) Integer.parseInt(s.substring(2 * i, 2 * i + 2), 16);
         return b;
-    }
-    static void markIds(Element e, DOMValidateContext vc) {
-        // an empty Id="" names nothing (and DOMValidateContext refuses to register it: "Id is not an attribute")
-        if (e.hasAttributeNS(null, "Id") && !e.getAttributeNS(null, "Id").isEmpty()) vc.setIdAttributeNS(e, null, "Id");
-        for (Node c = e.getFirstChild(); c != null; c = c.getNextSibling())
-            if (c.getNodeType() == Node.ELEMENT_NODE) markIds((Element) c, vc);
     }
     public static void main(String[] args) throws Exception {
         XMLSignatureFactory fac = XMLSignatureFactory.getInstance("DOM");
@@ -39,16 +35,24 @@ public class XmlSigVerify {
                 db.setErrorHandler(null);
                 Document doc = db.parse(new ByteArrayInputStream(unhex(f[0])));
                 java.security.cert.Certificate cert = cf.generateCertificate(new ByteArrayInputStream(unhex(f[1])));
-                Element sigEl = doc.getDocumentElement();
-                // relic writes the RFC 4050 ECDSAKeyValue, which the JDK does not know: the key comes from the certificate
-                NodeList kis = sigEl.getElementsByTagNameNS(XMLSignature.XMLNS, "KeyInfo");
-                for (int i = kis.getLength() - 1; i >= 0; i--) {
-                    Node ki = kis.item(i);
-                    if (ki.getParentNode() == sigEl) sigEl.removeChild(ki);   // KeyInfo is not covered by the signature
+                Node cur = doc.getDocumentElement();
+                if (f.length > 2 && !f[2].equals("-")) {
+                    for (String ix : f[2].split("/")) {
+                        int want = Integer.parseInt(ix), k = 0;
+                        Node found = null;
+                        for (Node c = cur.getFirstChild(); c != null; c = c.getNextSibling())
+                            if (c.getNodeType() == Node.ELEMENT_NODE) { if (k == want) { found = c; break; } k++; }
+                        if (found == null) throw new RuntimeException("path");
+                        cur = found;
+                    }
                 }
+                Element sigEl = null;
+                for (Node c = cur.getFirstChild(); c != null; c = c.getNextSibling())
+                    if (c.getNodeType() == Node.ELEMENT_NODE && "Signature".equals(c.getLocalName())) sigEl = (Element) c;
+                if (sigEl == null) throw new RuntimeException("no Signature child");
+                // relic writes the RFC 4050 ECDSAKeyValue, which the JDK does not know: the key comes from the certificate
                 DOMValidateContext vc = new DOMValidateContext(KeySelector.singletonKeySelector(cert.getPublicKey()), sigEl);
                 vc.setProperty("org.jcp.xml.dsig.secureValidation", Boolean.FALSE);
-                markIds(sigEl, vc);
                 XMLSignature sig = fac.unmarshalXMLSignature(vc);
                 boolean ok = sig.validate(vc);
                 if (ok) { out.println("OK"); continue; }
